@@ -345,6 +345,92 @@ pub fn g1(rng: &mut Rng, fmt: Fmt) -> Case {
     }
 }
 
+/// (k, odd o = 2m+1 of 54 bits, n, o * 5^k below 2^n?) for every number k of decimal places at which some f64 halfway
+/// significand makes o * 5^k land within 2^-57 (relative) of a power of two 2^n.
+fn limb_boundary_table() -> &'static Vec<(usize, u64, u64, bool)> {
+    static T: std::sync::OnceLock<Vec<(usize, u64, u64, bool)>> = std::sync::OnceLock::new();
+    T.get_or_init(|| {
+        let mut out = Vec::new();
+        for k in 28usize..1100 {
+            let p5 = oracle::pow5(k);
+            let l = p5.bit_length();
+            let n = l + 53; // 2^n / 5^k in (2^53, 2^54]
+            // 64-bit estimate of the quotient, then exact evaluation of the odd candidates around it
+            let top = p5.shr(l - 64).to_u64().unwrap(); // [2^63, 2^64)
+            let est = ((1u128 << 117) / top as u128) as u64; // ~ 2^(n) / 5^k
+            let pow2 = BigU::from_u64(1).shl(n);
+            let mut best: Option<(u64, u64, bool)> = None; // (error bits below n, o, below)
+            for d in -4i64..=4 {
+                let o = (est as i64 + d) as u64 | 1;
+                if o < (1u64 << 53) || o >= (1u64 << 54) {
+                    continue;
+                }
+                let prod = BigU::from_u64(o).mul(p5);
+                let (diff, below) = if prod < pow2 { (pow2.sub(&prod), true) } else { (prod.sub(&pow2), false) };
+                let gap_bits = n - diff.bit_length(); // error ~ 2^-gap_bits relative
+                if best.map_or(true, |b| gap_bits > b.0) {
+                    best = Some((gap_bits, o, below));
+                }
+            }
+            if let Some((g, o, below)) = best {
+                if g >= 57 {
+                    out.push((k, o, n, below));
+                }
+            }
+        }
+        out
+    })
+}
+
+/// Inputs for which the two big integers of the final slow-path comparison - the decimal digits D and the scaled halfway
+/// point T = (2m+1) x 5^k x 2^s - lie on different sides of a power of 2^64, i.e. have different limb counts although
+/// they differ by less than 2^-57: T is built next to a limb boundary (table above, s chosen so that the power of two is a
+/// limb boundary), D is T, T +- 1, the boundary itself, the boundary +- 1, or a point between. f64 only (no 25-bit odd
+/// number gets that close to a power of two).
+pub fn g_limb_boundary(rng: &mut Rng) -> Option<Case> {
+    let t = limb_boundary_table();
+    if t.is_empty() {
+        return None;
+    }
+    let (k, o, n, below) = t[rng.below(t.len() as u64) as usize];
+    // n + s = 64 j, s > 0, at most ~769 digits
+    let jmin = n / 64 + 1;
+    let jmax = 39u64;
+    if jmin > jmax {
+        return None;
+    }
+    let j = rng.range(jmin as i64, jmax as i64) as u64;
+    let s = 64 * j - n;
+    let e = s as i64 + 1 - k as i64; // binary exponent of b's ulp: b = m x 2^e
+    if !(-1074..=971).contains(&e) {
+        return None;
+    }
+    let tt = BigU::from_u64(o).mul(oracle::pow5(k)).shl(s);
+    let bd = BigU::from_u64(1).shl(64 * j);
+    let d = match rng.below(8) {
+        0 => tt.clone(),
+        1 => tt.add_u64(1),
+        2 => tt.sub(&BigU::from_u64(1)),
+        3 => bd.clone(),
+        4 => bd.add_u64(1),
+        5 => bd.sub(&BigU::from_u64(1)),
+        6 => {
+            // somewhere between the two
+            let (lo, hi) = if below { (&tt, &bd) } else { (&bd, &tt) };
+            let gap = hi.sub(lo);
+            let r = BigU::from_u64(rng.next() | 1 << 63).mul(&gap).shr(64);
+            lo.add(&r)
+        }
+        _ => if below { bd.add_u64(rng.below(1 << 20)) } else { bd.sub(&BigU::from_u64(1 + rng.below(1 << 20))) },
+    };
+    let digits = d.to_dec();
+    let tz = digits.iter().rev().take_while(|&&c| c == b'0').count();
+    let sig = &digits[..digits.len() - tz];
+    let mut c = place_random(rng, sig, tz as i64 - k as i64, "LIMB_BOUNDARY")?;
+    c.tag = "LIMB_BOUNDARY";
+    Some(c)
+}
+
 /// G1X: "pseudo-midpoints" outside the range of the format. The moderate stage works on the top bits of w x 10^q and only
 /// looks at the range at the very end, so a value far above MAX (or far below the smallest subnormal) whose leading bits
 /// look like a halfway pattern - (2m+1) x 2^(k-1) with a p-bit m and k beyond the exponent range - is declined like a
@@ -452,6 +538,20 @@ pub fn g_seam(rng: &mut Rng, fmt: Fmt) -> Case {
             _ => rng.structured_u64(),
         };
         let w = (base as i128 + rng.range(-4, 4) as i128).clamp(1, u64::MAX as i128) as u64;
+        if rng.chance(1, 5) {
+            // the "disguised" fast path moves s powers of ten into the significand: the places where m x 10^s crosses
+            // 2^p (its limit) and 2^64 (overflow of the integer multiplication), s = 1..15, +- a few and +- 0.2 %
+            let s = rng.range(1, qb - qa) as u32;
+            let lim: u128 = if rng.chance(1, 2) { 1u128 << 64 } else { 1u128 << p1 };
+            let m0 = (lim / 10u128.pow(s)) as i128;
+            let d = if rng.chance(1, 2) { rng.range(-3, 3) as i128 } else { rng.range(-(m0 as i64 / 500).max(4), (m0 as i64 / 500).max(4)) as i128 };
+            let m = (m0 + d).clamp(1, u64::MAX as i128) as u64;
+            let sig = m.to_string().into_bytes();
+            if let Some(mut c) = place_random(rng, &sig, qa + s as i64, "SEAM") {
+                c.tag = "SEAM_DISGUISED_LIMIT";
+                return c;
+            }
+        }
         let q = match rng.below(8) {
             0 => rng.range(-qa - 2, -qa + 2),
             1 => rng.range(qa - 2, qa + 2),
